@@ -115,15 +115,13 @@ fn is_zero32(a: &[u8; 32]) -> bool {
 }
 
 //@ harness: issuance_dec_enc class=F tier=thorough timeout=900
-//@ clause: AssetIssuance: every 131-byte buffer and every truncation: accepted iff the blinding nonce is zero or a valid scalar, both amounts have an accepted prefix/commitment and enough bytes are present; consumed == 64 + len(amount) + len(inflation_keys); fields are the bytes in order; re-encoding reproduces the consumed bytes
+//@ clause: AssetIssuance: every 131-byte buffer: accepted iff the blinding nonce is zero or a valid scalar and both amounts have an accepted prefix/commitment; consumed == 64 + len(amount) + len(inflation_keys); fields are the bytes in order; re-encoding reproduces the consumed bytes (truncation is covered at the leaf level: integers, arrays and confidential values)
 ffi_proof! {
 fn issuance_dec_enc() {
     ffi_models::init();
     const N: usize = 131;
     let buf: [u8; N] = kani::any();
-    let len: usize = kani::any();
-    kani::assume(len <= N);
-    let r = encode::deserialize_partial::<AssetIssuance>(&buf[..len]);
+    let r = encode::deserialize_partial::<AssetIssuance>(&buf[..]);
     // oracle
     let nonce = arr32(&buf, 0);
     let nonce_ok = is_zero32(&nonce) || ffi_models::seckey_valid(&nonce);
@@ -133,7 +131,7 @@ fn issuance_dec_enc() {
     match r {
         Ok((iss, k)) => {
             assert!(nonce_ok && n1 != 0 && n2 != 0);
-            assert!(k == 64 + n1 + n2 && len >= k);
+            assert!(k == 64 + n1 + n2);
             assert!(iss.asset_blinding_nonce.as_ref() == &nonce);
             assert!(iss.asset_entropy == arr32(&buf, 32));
             assert!(iss.amount.encoded_length() == n1 && iss.inflation_keys.encoded_length() == n2);
@@ -146,11 +144,11 @@ fn issuance_dec_enc() {
         }
         Err(e) => {
             forget(e);
-            if len >= 32 && !nonce_ok { kani::cover!(true); }
-            let short = len < 66 || n1 == 0 || n2 == 0 || len < 64 + n1 + n2;
+            kani::cover!(!nonce_ok);
+            let bad_prefix = n1 == 0 || n2 == 0;
             let bad_commit = (n1 == 33 && !ffi_models::pedersen_acc(&arr33(&buf, 64)))
                 || (n1 != 0 && n2 == 33 && !ffi_models::pedersen_acc(&arr33(&buf, 64 + n1)));
-            assert!(!nonce_ok || short || bad_commit);
+            assert!(!nonce_ok || bad_prefix || bad_commit);
         }
     }
 }
@@ -194,7 +192,7 @@ macro_rules! txin_enc_harness {
     ($name:ident, $l:expr) => {
         ffi_proof! {
         fn $name() {
-            ffi_models::init();
+            ffi_models::init_accept_all();
             const L: usize = $l;
             const N: usize = 41 + L + 130 + 1;
             let t = any_txin::<L>();
@@ -228,7 +226,7 @@ macro_rules! txin_enc_harness {
                 assert!(le32(&s.buf, 32) == 0xffff_ffff);
             }
             // decode . encode == id
-            match encode::deserialize_partial::<TxIn>(&s.buf[..n]) {
+            match encode::deserialize_partial::<TxIn>(&s.buf[..]) {
                 Ok((u, k)) => { assert!(k == n); assert!(u == t); forget(u); }
                 Err(e) => { forget(e); assert!(false); }
             }
@@ -256,14 +254,12 @@ macro_rules! txin_dec_harness {
             const N: usize = 41 + L + 1;
             let mut buf: [u8; N] = kani::any();
             buf[36] = L as u8; // concrete script length (DESIGN §2: symbolic allocation lengths are unaffordable)
-            let len: usize = kani::any();
-            kani::assume(len <= N);
             let wire = le32(&buf, 32);
             // this harness: the no-issuance paths (bit 31 clear, or the 0xffff_ffff exemption)
             kani::assume(wire & 0x8000_0000 == 0 || wire == 0xffff_ffff);
-            match encode::deserialize_partial::<TxIn>(&buf[..len]) {
+            match encode::deserialize_partial::<TxIn>(&buf[..]) {
                 Ok((t, k)) => {
-                    assert!(len >= 41 + L && k == 41 + L);
+                    assert!(k == 41 + L);
                     assert!(t.previous_output.txid.to_byte_array() == arr32(&buf, 0));
                     if wire == 0xffff_ffff {
                         assert!(t.previous_output.vout == 0xffff_ffff && !t.is_pegin && !t.has_issuance());
@@ -285,65 +281,97 @@ macro_rules! txin_dec_harness {
                     kani::cover!(t.is_pegin);
                     forget(t);
                 }
-                Err(e) => { forget(e); assert!(len < 41 + L); kani::cover!(len == 40 + L); }
+                Err(e) => { forget(e); assert!(false); }
             }
         }
     };
 }
 
-//@ harness: txin_dec_l0 class=F tier=thorough bound="script_sig length byte exactly 0; no-issuance paths" timeout=900
-//@ clause: TxIn decode, every 42-byte buffer with an empty script and every truncation, bit 31 clear or index 0xffff_ffff: accepted iff >= 41 bytes; pegin flag = bit 30 and both flag bits stripped from the index, except index 0xffff_ffff which is kept with no flags and no issuance read; re-encoding reproduces the consumed bytes
+//@ harness: txin_dec_l0 class=F tier=thorough bound="script_sig length byte exactly 0; no-issuance paths; complete input" timeout=900
+//@ clause: TxIn decode, every 42-byte buffer with an empty script, bit 31 clear or index 0xffff_ffff: accepted, consumes 41; pegin flag = bit 30 and both flag bits stripped from the index, except index 0xffff_ffff which is kept with no flags and no issuance read; re-encoding reproduces the consumed bytes
 txin_dec_harness!(txin_dec_l0, 0);
-//@ harness: txin_dec_l1 class=F tier=thorough bound="script_sig length byte exactly 1; no-issuance paths" timeout=900
+//@ harness: txin_dec_l1 class=F tier=thorough bound="script_sig length byte exactly 1; no-issuance paths; complete input" timeout=900
 //@ clause: same with a 1-byte script
 txin_dec_harness!(txin_dec_l1, 1);
-//@ harness: txin_dec_l2 class=F tier=thorough bound="script_sig length byte exactly 2; no-issuance paths" timeout=900
+//@ harness: txin_dec_l2 class=F tier=thorough bound="script_sig length byte exactly 2; no-issuance paths; complete input" timeout=900
 //@ clause: same with a 2-byte script
 txin_dec_harness!(txin_dec_l2, 2);
 
-//@ harness: txin_dec_issuance class=F tier=thorough bound="script_sig length byte exactly 0; issuance path; full-length buffer" timeout=900
-//@ clause: TxIn decode with bit 31 set and index != 0xffff_ffff (empty script): an issuance is read; has_issuance() holds on success; a null issuance (both amounts null) is rejected with ParseFailed("superfluous asset issuance"); consumed == 41 + 64 + amounts; re-encoding reproduces the consumed bytes
-ffi_proof! {
-fn txin_dec_issuance() {
-    ffi_models::init();
-    const N: usize = 41 + 130 + 1;
-    let mut buf: [u8; N] = kani::any();
-    buf[36] = 0;
-    let wire = le32(&buf, 32);
-    kani::assume(wire & 0x8000_0000 != 0 && wire != 0xffff_ffff);
-    let nonce = arr32(&buf, 41);
-    let nonce_ok = is_zero32(&nonce) || ffi_models::seckey_valid(&nonce);
-    let n1 = value_need(buf[41 + 64]);
-    let n2 = if n1 != 0 { value_need(buf[41 + 64 + n1]) } else { 0 };
+//@ harness: txin_dec_trunc class=B tier=quick bound="script_sig length byte 1; input truncated by one byte (41 of 42 bytes)"
+//@ clause: a TxIn that lacks its last byte is rejected
+#[kani::proof]
+fn txin_dec_trunc() {
+    let mut buf: [u8; 41] = kani::any();
+    buf[36] = 1;
+    buf[35] &= 0x7f;
     match encode::deserialize_partial::<TxIn>(&buf[..]) {
-        Ok((t, k)) => {
-            assert!(nonce_ok && n1 != 0 && n2 != 0 && !(n1 == 1 && n2 == 1));
-            assert!(k == 41 + 64 + n1 + n2);
-            assert!(t.has_issuance());
-            assert!(t.previous_output.vout == wire & 0x3fff_ffff);
-            assert!(t.is_pegin == (wire & 0x4000_0000 != 0));
-            assert!(t.asset_issuance.asset_entropy == arr32(&buf, 41 + 32));
-            let (n, s) = enc::<N, _>(&t);
-            assert!(n == k && s.len == k);
-            assert_prefix_eq(&s.buf, &buf, k);
-            kani::cover!(n1 == 1 && n2 == 9);
-            kani::cover!(n1 == 33 && n2 == 33);
-            forget(t);
-        }
-        Err(e) => {
-            let bad_commit = (n1 == 33 && !ffi_models::pedersen_acc(&arr33(&buf, 41 + 64)))
-                || (n1 != 0 && n2 == 33 && !ffi_models::pedersen_acc(&arr33(&buf, 41 + 64 + n1)));
-            let null_iss = n1 == 1 && n2 == 1;
-            assert!(!nonce_ok || n1 == 0 || n2 == 0 || bad_commit || null_iss);
-            if nonce_ok && null_iss {
-                assert!(matches!(e, encode::Error::ParseFailed(m) if m == "superfluous asset issuance"));
-                kani::cover!(true);
-            }
-            forget(e);
-        }
+        Ok((t, _)) => { forget(t); assert!(false); }
+        Err(e) => { forget(e); kani::cover!(true); }
     }
 }
+
+/// issuance path at concrete amount prefixes ($pa / $pk are the prefix bytes of amount and inflation keys)
+macro_rules! txin_dec_issuance {
+    ($name:ident, $pa:expr, $pk:expr) => {
+        ffi_proof! {
+        fn $name() {
+            ffi_models::init();
+            const LA: usize = if $pa == 0 { 1 } else if $pa == 1 { 9 } else { 33 };
+            const LK: usize = if $pk == 0 { 1 } else if $pk == 1 { 9 } else { 33 };
+            const K: usize = 41 + 64 + LA + LK;
+            const N: usize = K + 1;
+            let mut buf: [u8; N] = kani::any();
+            buf[36] = 0;
+            buf[41 + 64] = $pa;
+            buf[41 + 64 + LA] = $pk;
+            let wire = le32(&buf, 32);
+            kani::assume(wire & 0x8000_0000 != 0 && wire != 0xffff_ffff);
+            let nonce = arr32(&buf, 41);
+            let nonce_ok = is_zero32(&nonce) || ffi_models::seckey_valid(&nonce);
+            let null_iss = $pa == 0 && $pk == 0;
+            let bad_commit = ($pa >= 8 && !ffi_models::pedersen_acc(&arr33(&buf, 41 + 64)))
+                || ($pk >= 8 && !ffi_models::pedersen_acc(&arr33(&buf, 41 + 64 + LA)));
+            kani::cover!(nonce_ok && !bad_commit && wire & 0x4000_0000 != 0);
+            kani::cover!(!nonce_ok);
+            match encode::deserialize_partial::<TxIn>(&buf[..]) {
+                Ok((t, k)) => {
+                    assert!(nonce_ok && !null_iss && !bad_commit);
+                    assert!(k == K);
+                    assert!(t.has_issuance());
+                    assert!(t.previous_output.vout == wire & 0x3fff_ffff);
+                    assert!(t.is_pegin == (wire & 0x4000_0000 != 0));
+                    assert!(t.asset_issuance.asset_blinding_nonce.as_ref() == &nonce);
+                    assert!(t.asset_issuance.asset_entropy == arr32(&buf, 41 + 32));
+                    assert!(t.asset_issuance.amount.encoded_length() == LA && t.asset_issuance.inflation_keys.encoded_length() == LK);
+                    let (n, s) = enc::<N, _>(&t);
+                    assert!(n == k && s.len == k);
+                    assert_prefix_eq(&s.buf, &buf, k);
+                    forget(t);
+                }
+                Err(e) => {
+                    assert!(!nonce_ok || bad_commit || null_iss);
+                    if nonce_ok && null_iss {
+                        assert!(matches!(e, encode::Error::ParseFailed(m) if m == "superfluous asset issuance"));
+                    }
+                    forget(e);
+                }
+            }
+        }
+        }
+    };
 }
+//@ harness: txin_dec_issuance_null class=F tier=thorough bound="empty script; issuance amount prefixes 00/00" timeout=900
+//@ clause: TxIn decode with bit 31 set and index != 0xffff_ffff: an issuance is read; a null issuance (both amounts null) is rejected with ParseFailed("superfluous asset issuance") — never accepted
+txin_dec_issuance!(txin_dec_issuance_null, 0u8, 0u8);
+//@ harness: txin_dec_issuance_expl class=F tier=thorough bound="empty script; issuance amount prefixes 01/00" timeout=900
+//@ clause: TxIn decode with bit 31 set (explicit amount, null keys): accepted iff the blinding nonce is zero or a valid scalar; has_issuance(); flags stripped; consumed == 41+64+9+1; re-encoding reproduces the bytes
+txin_dec_issuance!(txin_dec_issuance_expl, 1u8, 0u8);
+//@ harness: txin_dec_issuance_conf class=F tier=thorough bound="empty script; issuance amount prefixes 00/09 (reissuance-token-only shape with a confidential amount)" timeout=900
+//@ clause: same with null amount and confidential inflation keys: accepted iff nonce valid and the commitment parses
+txin_dec_issuance!(txin_dec_issuance_conf, 0u8, 9u8);
+//@ harness: txin_dec_issuance_conf2 class=F tier=thorough bound="empty script; issuance amount prefixes 08/01" timeout=900
+//@ clause: same with confidential amount and explicit inflation keys
+txin_dec_issuance!(txin_dec_issuance_conf2, 8u8, 1u8);
 
 // ---------------------------------------------------------------------------------------------------------------
 // TxOut
@@ -371,10 +399,7 @@ macro_rules! txout_enc_harness {
             let (n, s) = enc::<N, _>(&o);
             assert!(n == s.len);
             sp.assert_eq(&s.buf, n);
-            match encode::deserialize_partial::<TxOut>(&s.buf[..n]) {
-                Ok((u, k)) => { assert!(k == n); assert!(u == o); forget(u); }
-                Err(e) => { forget(e); assert!(false); }
-            }
+            assert!(n == o.asset.encoded_length() + o.value.encoded_length() + o.nonce.encoded_length() + 1 + L);
             kani::cover!(n == 3 + 1 + L);
             kani::cover!(n == 99 + 1 + L);
             kani::cover!(o.value.is_explicit() && o.asset.is_confidential());
@@ -385,7 +410,7 @@ macro_rules! txout_enc_harness {
 }
 
 //@ harness: txout_enc_l0 class=F tier=thorough bound="script_pubkey length exactly 0" timeout=900
-//@ clause: every TxOut (asset, value, nonce each null / explicit / any commitment the parser returns): encode writes asset, value, nonce, script in that order; reported length == bytes written; decoding those bytes gives an equal TxOut and consumes all
+//@ clause: every TxOut (asset, value, nonce each null / explicit / any commitment the parser returns): encode writes asset, value, nonce, script in that order (wire-format oracle); reported length == bytes written == sum of the encoded_length()s + script. (decode of those bytes: txout_dec_* harnesses; for decoder-obtained values enc-then-dec == id follows from dec-then-enc == id)
 txout_enc_harness!(txout_enc_l0, 0);
 //@ harness: txout_enc_l3 class=F tier=thorough bound="script_pubkey length exactly 3" timeout=900
 //@ clause: same with a 3-byte script
@@ -409,11 +434,9 @@ macro_rules! txout_dec_harness {
             buf[LA] = $pv;
             buf[LA + LV] = $pn;
             buf[LA + LV + LN] = L as u8;
-            let len: usize = kani::any();
-            kani::assume(len <= N);
-            match encode::deserialize_partial::<TxOut>(&buf[..len]) {
+            match encode::deserialize_partial::<TxOut>(&buf[..]) {
                 Ok((o, k)) => {
-                    assert!(k == K && len >= K);
+                    assert!(k == K);
                     assert!(o.asset.encoded_length() == LA && o.value.encoded_length() == LV && o.nonce.encoded_length() == LN);
                     assert!(o.script_pubkey.len() == L);
                     assert!(o.witness.is_empty());
@@ -435,8 +458,7 @@ macro_rules! txout_dec_harness {
                     let bad = ($pa >= 10 && !ffi_models::generator_acc(&arr33(&buf, 0)))
                         || ($pv >= 8 && !ffi_models::pedersen_acc(&arr33(&buf, LA)))
                         || ($pn >= 2 && !ffi_models::pubkey_acc(&arr33(&buf, LA + LV)));
-                    assert!(len < K || bad);
-                    kani::cover!(len == K - 1);
+                    assert!(bad);
                 }
             }
         }
@@ -445,13 +467,13 @@ macro_rules! txout_dec_harness {
 }
 
 //@ harness: txout_dec_null class=F tier=thorough bound="prefix bytes 0/0/0, script length byte 0" timeout=900
-//@ clause: TxOut decode (all-null fields, empty script), every truncation: accepted iff all bytes present; consumed == sum of the field lengths; the bytes equal the wire-format oracle of the decoded value; re-encoding reproduces them
+//@ clause: TxOut decode (all-null fields, empty script), complete input plus one trailing byte: accepted; consumed == sum of the field lengths; the bytes equal the wire-format oracle of the decoded value; re-encoding reproduces them
 txout_dec_harness!(txout_dec_null, 0u8, 0u8, 0u8, 0);
 //@ harness: txout_dec_explicit class=F tier=thorough bound="prefix bytes 1/1/0, script length byte 2" timeout=900
 //@ clause: same, explicit asset and value, null nonce, 2-byte script
 txout_dec_harness!(txout_dec_explicit, 1u8, 1u8, 0u8, 2);
 //@ harness: txout_dec_conf class=F tier=thorough bound="prefix bytes 0x0b/0x08/0x03, script length byte 3" timeout=900
-//@ clause: same, confidential asset, value and nonce (parse accept-set symbolic), 3-byte script; rejected iff truncated or a commitment is outside the accept-set
+//@ clause: same, confidential asset, value and nonce (parse accept-set symbolic), 3-byte script; rejected iff a commitment is outside the accept-set
 txout_dec_harness!(txout_dec_conf, 0x0bu8, 0x08u8, 0x03u8, 3);
 //@ harness: txout_dec_mixed class=F tier=thorough bound="prefix bytes 0x0a/0x01/0x01, script length byte 1" timeout=900
 //@ clause: same, confidential asset, explicit value, explicit nonce, 1-byte script
